@@ -148,13 +148,19 @@ def plans (inp : LinkInput) : Option (List MemPlan) :=
 def Overfull (inp : LinkInput) : Prop :=
   ∃ ps, plans inp = some ps ∧ ∃ p ∈ (memories inp).zip ps, p.2.need > p.1.size
 
-instance (inp : LinkInput) : Decidable (Overfull inp) := by
-  unfold Overfull
-  cases h : plans inp with
-  | none => exact isFalse (by simp)
-  | some ps =>
-    simp only [Option.some.injEq, exists_eq_left']
-    exact inferInstance
+/-- Boolean form of `Overfull` (what the driver evaluates) -/
+def overfullB (inp : LinkInput) : Bool :=
+  match plans inp with
+  | none => false
+  | some ps => ((memories inp).zip ps).any (fun p => decide (p.2.need > p.1.size))
+
+theorem overfullB_iff (inp : LinkInput) : overfullB inp = true ↔ Overfull inp := by
+  unfold overfullB Overfull
+  cases plans inp with
+  | none => simp
+  | some ps => simp
+
+instance (inp : LinkInput) : Decidable (Overfull inp) := decidable_of_iff _ (overfullB_iff inp)
 
 /-! ### well-formed requests -/
 
